@@ -13,8 +13,11 @@ import time
 VERIF = os.path.dirname(os.path.dirname(os.path.abspath(__file__)))
 LEAN = os.path.join(VERIF, "lean")
 DRIVER = os.path.join(LEAN, ".lake", "build", "bin", "driver")
-EVIDENCE = os.path.join(VERIF, "evidence")
-REPLAYS = os.path.join(VERIF, "replays")
+# runs against a scratch copy of the repository (VERIF_REPO set: seeded changes, sweeps) must not overwrite the evidence
+# and replays of the registered checks
+_SCRATCH = os.environ.get("VERIF_REPO") not in (None, "", "/repo")
+EVIDENCE = os.path.join("/tmp/verif_scratch_out", "evidence") if _SCRATCH else os.path.join(VERIF, "evidence")
+REPLAYS = os.path.join("/tmp/verif_scratch_out", "replays") if _SCRATCH else os.path.join(VERIF, "replays")
 REPO = os.environ.get("VERIF_REPO", "/repo")
 ALLOWED_AXIOMS = {"propext", "Classical.choice", "Quot.sound"}
 FORBIDDEN = re.compile(r"\b(sorry|admit|native_decide|bv_decide|implemented_by|unsafe)\b|^\s*axiom\s|maxHeartbeats\s+0\b")
